@@ -61,3 +61,19 @@ PROPS["C14"] = simple(
                "or at the end of the string, and this must survive any sequence of layout operations. Sampled, not exhaustive.",
     level_note="Trusted: kit/term and the expectation bookkeeping in harness/verifchk/c14. When two colours of the same plane are nested the statement gives no unique answer; either is accepted.",
 )
+
+PROPS["C17"] = simple(
+    "verifchk/c17", "TestVerifC17", "exploration",
+    "JSON documents are generated as text and decoded by encoding/json exactly as production does; every accessor (GetAny, GetString, GetNumber, "
+    "GetObject, GetList, GetTime, GetURL, GetMediaType, plus GetMarkup for crashes) is called on every key incl. a missing one. Values: null, booleans, "
+    "~50 boundary numbers (-0, -5, 0.5, 1e300, 2^53+-1, 2^63, 2^64-2048, 2^64, 1e19, denormals) plus PRNG numbers, ~75 special strings (every control "
+    "character class, lone surrogates, RFC 3339 / URL / media-type edge cases) plus PRNG strings, nested arrays and objects. Non-trivial = every "
+    "(key, decoded value) pair; distinct = distinct (key, dynamic type, value).",
+    shards=dict(quick=8, thorough=16),
+    floor=dict(evaluations=50000, distinct=3000),
+    technique="runtime monitor: differential comparison of every accessor with an independent reference classifier (absent / wrong / value) and exact value check (big.Float for numbers)",
+    level_text="Every accessor result is compared with an independent classifier written from the statement: absent (missing, null, or empty after "
+               "sanitising), wrong/unparseable, or value; numbers are compared exactly with the IEEE-754 double via big.Float, other values by deep equality. "
+               "Sampled over a value grammar with all boundary values enumerated.",
+    level_note="Trusted: the reference classifier in harness/verifchk/c17; time.Parse(RFC3339) and url.Parse serve as the reference parsers for timestamps and URLs (the statement fixes classification and faithfulness, not a grammar of its own).",
+)
